@@ -1,5 +1,129 @@
 package c16
 
-// childMain runs a child-process scenario when the test binary was re-executed
-// by the harness (see indexer_test.go); false = normal test run.
-func childMain() bool { return false }
+import (
+	"bytes"
+	"fmt"
+	"os"
+	"os/exec"
+	"strings"
+	"time"
+)
+
+// Child-process execution: immudb runs decoders of on-disk data in background
+// goroutines (indexers, tbtree insert helpers); a panic there cannot be
+// recovered by the caller and kills the process. Such targets run in a copy of
+// this test binary (env C16_CHILD set) so that a crash is observed as the death
+// of the child and attributed to the directory it was given.
+
+// childMain runs the scenario requested through the environment; false = normal test run.
+func childMain() bool {
+	mode := os.Getenv("C16_CHILD")
+	if mode == "" {
+		return false
+	}
+	switch mode {
+	case "openread":
+		comp, dir := os.Getenv("C16_COMP"), os.Getenv("C16_DIR")
+		var opened bool
+		var err error
+		r := runStateful(func() { opened, err = openAndRead(comp, dir, storeKeys()) })
+		v := r.verdict("open + full read of a corrupted "+comp+" directory", diskReadCap)
+		es := ""
+		if err != nil {
+			es = err.Error()
+		}
+		fmt.Printf("\nC16CHILD opened=%v\nC16ERR %s\nC16VERDICT %s\nC16END\n", opened, oneLine(es), oneLine(v))
+	case "indexrow":
+		childIndexRow()
+	default:
+		fmt.Printf("C16CHILD unknown mode %q\n", mode)
+		os.Exit(3)
+	}
+	os.Exit(0)
+	return true
+}
+
+func oneLine(s string) string { return strings.ReplaceAll(s, "\n", " | ") }
+
+type childResult struct {
+	died    bool   // the process did not finish the scenario
+	crash   string // panic / fatal error excerpt
+	opened  bool
+	err     string
+	verdict string
+}
+
+// runChild re-executes the test binary in child mode.
+func runChild(mode string, env map[string]string) childResult {
+	cmd := exec.Command(os.Args[0], "-test.run=^$")
+	cmd.Env = append(os.Environ(), "C16_CHILD="+mode)
+	for k, v := range env {
+		cmd.Env = append(cmd.Env, k+"="+v)
+	}
+	var out, errb bytes.Buffer
+	cmd.Stdout, cmd.Stderr = &out, &errb
+	if err := cmd.Start(); err != nil {
+		return childResult{died: true, crash: "cannot start child: " + err.Error()}
+	}
+	done := make(chan error, 1)
+	go func() { done <- cmd.Wait() }()
+	var werr error
+	select {
+	case werr = <-done:
+	case <-time.After(3 * hangBound):
+		cmd.Process.Kill()
+		<-done
+		return childResult{died: true, crash: fmt.Sprintf("child did not finish within %s", 3*hangBound)}
+	}
+	var res childResult
+	o := out.String()
+	if i := strings.Index(o, "C16CHILD "); i >= 0 && strings.Contains(o, "C16END") {
+		for _, l := range strings.Split(o[i:], "\n") {
+			switch {
+			case strings.HasPrefix(l, "C16CHILD "):
+				res.opened = strings.Contains(l, "opened=true")
+			case strings.HasPrefix(l, "C16ERR "):
+				res.err = strings.TrimPrefix(l, "C16ERR ")
+			case strings.HasPrefix(l, "C16VERDICT "):
+				res.verdict = strings.TrimPrefix(l, "C16VERDICT ")
+			}
+		}
+		if werr == nil {
+			return res
+		}
+	}
+	res.died = true
+	res.crash = crashExcerpt(errb.String() + "\n" + o)
+	if res.crash == "" {
+		res.crash = fmt.Sprintf("child exited with %v", werr)
+	}
+	return res
+}
+
+// crashExcerpt keeps the panic message and the first frames of the crashing goroutine.
+func crashExcerpt(s string) string {
+	i := strings.Index(s, "panic: ")
+	if j := strings.Index(s, "fatal error: "); j >= 0 && (i < 0 || j < i) {
+		i = j
+	}
+	if i < 0 {
+		return ""
+	}
+	s = s[i:]
+	lines := strings.Split(s, "\n")
+	var keep []string
+	for _, l := range lines {
+		l = strings.TrimSpace(l)
+		if l == "" {
+			if len(keep) > 4 {
+				break
+			}
+			continue
+		}
+		keep = append(keep, l)
+		if len(keep) >= 14 {
+			break
+		}
+	}
+	return strings.Join(keep, " <- ")
+}
